@@ -297,6 +297,10 @@ def check(model, rep, tier):
         except Exception:
             pass
     _C07.formula_clause(model, ClauseView(rep, "formula"), shared)
+    from .generic import shell_mean_obligations
+    if "acryo/backend/_fsc.py::fsc_landscape" in shared:
+        shell_mean_obligations(model, rep, shared["acryo/backend/_fsc.py::fsc_landscape"], "formula")
+        rep.floor("H.shellmean", 1, "(fsc_landscape stores one mean per trial shift)")
     from .generic import view_update_obligations, functions_in
     view_update_obligations(model, rep, functions_in(model, ["acryo/loader/_base.py", "acryo/loader/_group.py", "acryo/_utils.py"]), "3 loader")
     from .generic import axis_convention_obligations
